@@ -87,7 +87,7 @@ def run_verus(path, workdir, rlimit=None, extra=None, timeout=900):
     return dict(cmd=' '.join(cmd), stdout=out, stderr=err, rc=rc, wall=time.time() - t0)
 
 
-def parse_verus(res, fns):
+def parse_verus(res, fns, gen_lines=None):
     """Returns dict(decided, failures, undecided_reasons, verified_count, smt_times)."""
     diags = []
     for line in res['stderr'].split('\n'):
@@ -151,6 +151,17 @@ def parse_verus(res, fns):
         elif kind == 'pre':
             if callee:
                 name = 'pre(%s)#L%d' % callee
+            elif gen_lines is not None and any('failed precondition' in (lab or '') for _, lab, _ in lines):
+                ln0 = [ln for ln, lab, _ in lines if 'failed precondition' in (lab or '')][0]
+                fnname = '?'
+                for k in range(min(ln0, len(gen_lines)) - 1, max(0, ln0 - 40), -1):
+                    mm = re.search(r'\bfn\s+(\w+)', gen_lines[k])
+                    if mm:
+                        fnname = mm.group(1); break
+                    mm = re.search(r'assume_specification.*\[\s*([^\]]+?)\s*\]', gen_lines[k])
+                    if mm:
+                        fnname = mm.group(1); break
+                name = 'pre(stub %s)' % fnname
             else:
                 txt = ''
                 if prim and prim[0].get('text'):
@@ -217,7 +228,7 @@ def verify_unit(repo, unit_dir, workdir, canary=True, rlimit=None):
     open(os.path.join(workdir, unit + '.verus.stderr'), 'w').write(res['stderr'])
     open(os.path.join(workdir, unit + '.verus.json'), 'w').write(res['stdout'])
     out['cmd'] = res['cmd']
-    pr = parse_verus(res, g.fns)
+    pr = parse_verus(res, g.fns, text.split('\n'))
     out['failures'] = pr['failures']
     out['undecided'] += pr['undecided']
     out['verified_count'] = pr['verified_count']
